@@ -81,6 +81,23 @@ def gram_type_name(rng):
     for _ in range(rng.randint(0, 3)):
         out += _piece(rng, False)
     return out
+def harvested_names():
+    """identifiers bound inside the proxy macro's own source: an IDL parameter of the same name must still be sent
+    under its name with the caller's value"""
+    import glob, re
+    names = set()
+    for f in glob.glob("/repo/zlink-macros/src/proxy/*.rs") + ["/repo/zlink-macros/src/proxy.rs"]:
+        try:
+            src = open(f).read()
+        except OSError:
+            continue
+        for m in re.finditer(r"\blet\s+(?:mut\s+)?([a-z][a-z0-9_]*)\b", src): names.add(m.group(1))
+    names |= {"method", "parameters", "params", "call", "reply", "connection", "conn", "result", "error", "out", "value", "this", "buf", "stream", "chain"}
+    return sorted(n for n in names if re.fullmatch(r"[a-z](_?[a-z0-9])*", n))
+
+HARVESTED = harvested_names()
+LOCALS = ["method", "parameters", "params", "call", "reply", "connection", "conn", "result", "out", "value", "chain", "stream"]
+
 def with_gram(rng, pool, gen, k=6):
     return pool + [gen(rng) for _ in range(k)]
 
@@ -120,7 +137,7 @@ def pick_names(rng, pool, n, snake_unique=True, conv=snake):
     return out
 
 def gen_fields(rng, customs, depth, lo, hi):
-    names = pick_names(rng, with_gram(rng, FIELD_NAMES, gram_field_name, 10), rng.randint(lo, hi))
+    names = pick_names(rng, with_gram(rng, FIELD_NAMES, gram_field_name, 10) + [rng.choice(HARVESTED) for _ in range(8)], rng.randint(lo, hi))
     return [(n, gen_type(rng, customs, depth)) for n in names]
 
 def gen_iface(rng, i):
@@ -153,7 +170,14 @@ def gen_iface(rng, i):
             if pascal(mn) + "Output" in used:
                 continue
             used.add(pascal(mn) + "Output")
-        methods.append(dict(name=mn, ins=gen_fields(rng, customs, 0, 0, 3), outs=outs))
+        ins = gen_fields(rng, customs, 0, 0, 3)
+        # one method in three also takes a parameter named like something the generated code itself binds
+        # (`method`, `parameters`, `call`, `connection` ...): it must still be sent under its name with the caller's value
+        if rng.random() < 0.35:
+            nm = rng.choice(LOCALS)
+            if all(snake(nm) != snake(x) for x, _ in ins):
+                ins.append((nm, gen_type(rng, customs, 1)))
+        methods.append(dict(name=mn, ins=ins, outs=outs))
     for en in pick_names(rng, with_gram(rng, ERROR_NAMES, gram_type_name, 4), rng.randint(0, 3), conv=pascal):
         if en in member_names:
             continue
